@@ -21,6 +21,10 @@ func (t *WeightedMerkleTrie) GetBlockProof(block uint64) (key, proof []byte, err
 		}
 		return nil, nil, err
 	}
+	if len(key)%2 != 0 {
+		// only a trie built from a malformed export has paths of odd nibble length
+		return nil, nil, ErrInvalidKey
+	}
 	key = hexToKeybytes(key)
 	proof, err = cbor.Marshal(persistTrie)
 	if err != nil {
@@ -110,6 +114,9 @@ func verifyProof(persistTrie *PersistTrie, block uint64, ind *int) (Node, []byte
 		return nil, nil, errors.New("index out of bounds")
 	}
 
+	if persistTrie.Pairs[*ind] == nil {
+		return nil, nil, errors.New("invalid proof entry")
+	}
 	node, err := DeserializeNode(persistTrie.Pairs[*ind].Value)
 	if err != nil {
 		return nil, nil, err
